@@ -623,7 +623,7 @@ def _candidates(v):
                 yield v[:i] + [c] + v[i + 1:]
     elif isinstance(v, dict):
         for k in list(v):
-            if k in ('op', 'mode', 'container', 'real_container', 'indentSpelling') or \
+            if k in ('op', 'mode', 'container', 'real_container', 'indentSpelling', 'via') or \
                     (k in ('model', 'key') and not isinstance(v[k], dict)):
                 continue        # enumerations of the protocol, not data
             for c in _candidates(v[k]):
